@@ -1,7 +1,7 @@
 #!/bin/bash
 # tools/run_all.sh [quick|thorough]  - every claimed check in sequence; summary table
 tier=${1:-quick}
-cd /verif
+cd "$(dirname "$0")/.."
 for p in $(python3 -c "import json;print(' '.join(c['property_id'] for c in json.load(open('MANIFEST.json'))['checks']))"); do
   s=$(date +%s)
   out=$(./check $p $tier 2>&1); rc=$?
